@@ -336,11 +336,39 @@ func (c *cluster) step(st h.Step) (h.Step, map[string]interface{}) {
 		c.observeNode(n) // cache the last state
 		_ = c.nodes[n].Serf.Shutdown()
 		c.up[n] = false
+	case "rejoin":
+		// the crashed node comes back under the same name and address with empty state and joins m at once
+		n := st.Int("n")
+		nd, err := quiet.NewNode(c.net, c.names[n], c.net.Reuse(c.nodes[n].Tr), func(cf *serf.Config) {
+			cf.ValidateNodeNames = false
+			cf.BroadcastTimeout = 20 * time.Second
+		})
+		if err != nil {
+			h.Die("restart: %v", err)
+		}
+		c.nodes[n] = nd
+		c.up[n] = true
+		c.cached[n] = nil
+		c.refutes[n] = 0
+		c.ml[n] = map[int]bool{}
+		fallthrough
 	case "join":
 		n, m := st.Int("n"), st.Int("m")
 		_, err := c.nodes[n].Serf.Join([]string{c.nodes[m].Tr.Addr()}, false)
 		if err != nil {
 			h.Die("join failed: %v", err)
+		}
+		// the accepting side merges in its own goroutine: wait (bounded) until it lists the joiner alive
+		for deadline := time.Now().Add(2 * time.Second); time.Now().Before(deadline); time.Sleep(200 * time.Microsecond) {
+			ok := false
+			for _, mem := range c.nodes[m].Serf.Members() {
+				if mem.Name == c.names[n] && mem.Status == serf.StatusAlive {
+					ok = true
+				}
+			}
+			if ok {
+				break
+			}
 		}
 		wn, wm := c.newRefutes(n), c.newRefutes(m)
 		q = append(c.collect(n, wn+1), c.collect(m, wm)...)
